@@ -228,7 +228,7 @@ def main(run: Run):
     from . import validation
     validation.add_to(run, ['csr_decoder_add'])
     from . import ctor_l1 as _ctor_l1
-    _ctor_l1.add_to(run, ['csr_decoder_init'])
+    _ctor_l1.add_to(run, ['csr_decoder_init', 'csr_decoder_align_to'])
     return run.finish(
         explanation="csr.Decoder.elaborate contract: strobe routing by the memory map's window placement, low address bits "
                     "forwarded as offset, write data copied, read data OR-merged; combinational over all inputs. "
